@@ -24,6 +24,7 @@ func c12(args []string) {
 	fs := flag.NewFlagSet("c12", flag.ExitOnError)
 	seed := fs.Uint64("seed", 1, "seed")
 	textEvery := fs.Int("text-every", 20, "emit text cases for about one day number in this many")
+	work := fs.String("work", "", "scratch copy of the examples tree for the whole run crossing the year 2000 (empty: skip)")
 	fs.Parse(args)
 	r := newRng(*seed)
 	w := bufio.NewWriterSize(os.Stdout, 1<<20)
@@ -115,45 +116,86 @@ func c12(args []string) {
 	tmp, err := os.MkdirTemp("", "c12cfg")
 	if err == nil {
 		defer os.RemoveAll(tmp)
-		names := []string{"DateDEshort", "DateDElong", "DateENshort", "DateENlong"}
-		ends := []string{"311299", "31121999", "123199", "12311999"}
-		gs := make([]hermes.GlobalVarsMain, len(names))
-		for i, nm := range names {
-			proj := filepath.Join(tmp, "project", "p"+nm)
+		type cfgCase struct {
+			name, end string
+			cent      int
+			lo, hi    int // day numbers whose year is unambiguous under this split
+		}
+		// day numbers: 1951-01-02 = 18264, 2049-12-31 = 54422, 2000-01-01 = 36160, 1999-12-31 = 36159
+		cfgs := []cfgCase{
+			{"DateDEshort", "311299", 50, 18264, 54422}, {"DateDElong", "31121999", 50, 18264, 54422},
+			{"DateENshort", "123199", 50, 18264, 54422}, {"DateENlong", "12311999", 50, 18264, 54422},
+			{"DateDEshort", "311299", 100, 36160, 72684}, {"DateENshort", "123199", 100, 36160, 72684}, // all two-digit years are 20yy
+			{"DateDEshort", "311299", 0, 1, 36159}, {"DateENshort", "123199", 0, 1, 36159}, // all are 19yy
+		}
+		gs := make([]hermes.GlobalVarsMain, len(cfgs))
+		for i, c := range cfgs {
+			pn := fmt.Sprintf("p%d", i)
+			proj := filepath.Join(tmp, "project", pn)
 			os.MkdirAll(proj, 0o755)
-			os.WriteFile(filepath.Join(proj, "config.yml"), []byte("Dateformat: "+nm+"\nDivideCentury: 50\nEndDate: '"+ends[i]+"'\n"), 0o644)
+			os.WriteFile(filepath.Join(proj, "config.yml"), []byte(fmt.Sprintf("Dateformat: %s\nDivideCentury: %d\nEndDate: '%s'\n", c.name, c.cent, c.end)), 0o644)
 			gs[i] = hermes.NewGlobalVarsMain()
 			gs[i].Session = hermes.NewHermesSession()
-			hp := hermes.NewHermesFilePath(tmp, "p"+nm, "u", "", "")
+			hp := hermes.NewHermesFilePath(tmp, pn, "u", "", "")
 			hermes.VerifReadConfig(&gs[i], map[string]string{}, &hp)
 		}
 		checked := 0
-		for n := 18264; n <= 54422; n += 1 + r.intn(60) { // 1951..2049: unambiguous with DivideCentury 50
+		for n := 1; n <= 72684; n += 1 + r.intn(60) {
 			t := base.AddDate(0, 0, n)
-			order := []int{0, 1, 2, 3, 3, 2, 1, 0, 2, 0}
+			order := []int{0, 1, 2, 3, 4, 5, 6, 7, 7, 6, 5, 4, 3, 2, 1, 0, 2, 0, 5, 7}
 			for _, i := range order {
-				var want, bare string
-				switch i {
-				case 0:
+				c := cfgs[i]
+				if n < c.lo || n > c.hi {
+					continue
+				}
+				var want string
+				switch c.name {
+				case "DateDEshort":
 					want = fmt.Sprintf("%02d.%02d.%02d", t.Day(), int(t.Month()), t.Year()%100)
-				case 1:
+				case "DateDElong":
 					want = fmt.Sprintf("%02d.%02d.%d", t.Day(), int(t.Month()), t.Year())
-				case 2:
+				case "DateENshort":
 					want = fmt.Sprintf("%02d.%02d.%02d", int(t.Month()), t.Day(), t.Year()%100)
-				case 3:
+				case "DateENlong":
 					want = fmt.Sprintf("%02d.%02d.%d", int(t.Month()), t.Day(), t.Year())
 				}
-				bare = strings.ReplaceAll(want, ".", "")
+				bare := strings.ReplaceAll(want, ".", "")
 				if got := gs[i].Kalender(n); got != want {
-					fail("configured Kalender format=%s n=%d text=%s want=%s (several configurations in one process)", names[i], n, got, want)
+					fail("configured Kalender format=%s split=%d n=%d text=%s want=%s (several configurations in one process)", c.name, c.cent, n, got, want)
 				}
 				if zt, mas := gs[i].Datum(bare); mas != n || zt != t.YearDay() {
-					fail("configured Datum format=%s text=%s -> masdat=%d doy=%d want %d %d", names[i], bare, mas, zt, n, t.YearDay())
+					fail("configured Datum format=%s split=%d text=%s -> masdat=%d doy=%d want %d %d", c.name, c.cent, bare, mas, zt, n, t.YearDay())
 				}
 				checked++
 			}
 		}
 		fmt.Fprintf(w, "CONFIGURED %d\n", checked)
+	}
+	// the day loop's own day of year and year length against the calendar on a run that crosses the end of the year
+	// 2000 (a leap year divisible by 100): g.TAG is what sowing/harvest day-of-year outputs and the weather index use
+	if *work != "" {
+		days, first := 0, true
+		hermes.VerifProbe = func(stage string, zeit, subd int, wdt float64, g *hermes.GlobalVarsMain, ws *hermes.WaterSharedVars, ns *hermes.NitroSharedVars) {
+			if stage != "dayend" {
+				return
+			}
+			days++
+			t := base.AddDate(0, 0, zeit)
+			yearLen := 365
+			if t.Year()%4 == 0 {
+				yearLen = 366
+			}
+			if first && (g.TAG.Index+1 != t.YearDay() || g.JTAG != yearLen) {
+				first = false
+				fail("run day-of-year zeit=%d date=%s loop-day-of-year=%d true=%d year-length=%d true=%d", zeit, t.Format("2006-01-02"), g.TAG.Index+1, t.YearDay(), g.JTAG, yearLen)
+			}
+		}
+		res := runProject(*work, splitArgs("project=ex1 WeatherFolder=historical soilId=075 fcode=109_120 plotNr=10001 Altitude=73 Latitude=52.6732 poligonID=29872 EndDate=03012001 resultfolder=R/c12"))
+		hermes.VerifProbe = nil
+		if !res.Success {
+			fail("run crossing 2000 failed: %s", res.Err)
+		}
+		fmt.Fprintf(w, "RUNDAYS %d\n", days)
 	}
 	fmt.Fprintf(w, "ORACLE_TOTAL %d\n", oracleFails)
 }
